@@ -278,7 +278,8 @@ def r6(c):
              'handler operand is the configured authorization handler', repr(h), loc_of(b, i, stmt=s))
 
 
-@rule('C08', 'R08.7', 'C ABI: authorization callbacks forward to the same-named callback and default to Deny; enum conversion')
+@rule('C08', 'R08.7', 'C ABI: authorization callbacks forward to the same-named callback and default to Deny; enum conversion',
+      needs=lambda P: 'rodbus_ffi' in P.crates and P.has('rodbus::tcp::tls::server::TlsServerConfig::new'))
 def r7(c):
     P = c.P
     W = '<rodbus_ffi::server::AuthorizationHandlerWrapper as rodbus::server::handler::AuthorizationHandler>::'
